@@ -48,7 +48,7 @@ GROUP = {
           rewrites=[RET()],
           contract="""
         ensures
-            // (ASSUMED, L1: iterator chain over the intern store; its selection predicate `name == argument` is proved on a slice in group `register`)
+            // proved in group `register` on the real body (whole function); what stays assumed there: all_accounts_unsorted lists every known account once
             filter is None ==> r == Some(AccountFilter::Any),
             filter matches Some(f) ==> (match r {
                 Some(AccountFilter::Set(t)) => forall|x: Account| t@.contains(x) == #[trigger] by_name(ctx, f@)(x),
